@@ -36,6 +36,34 @@ def install(it):
                                  _struct.calcsize, a[0]))
         m.ns['pack'] = B('struct.pack', lambda it, a, kw: struct_pack(
             it, a[0], a[1:]))
+
+        def unpack_from(it, a, kw):
+            fmt, buf = a[0], a[1]
+            off = a[2] if len(a) > 2 else kw.get('offset', 0)
+            return struct_unpack_from(it, fmt, buf, off)
+        m.ns['unpack_from'] = B('struct.unpack_from', unpack_from)
+        # struct.Struct(fmt): a precompiled format
+        scls = I.ClassVal('Struct', [], {}, m)
+
+        def s_init(it, a, kw):
+            a[0].attrs['format'] = a[1]
+            a[0].attrs['size'] = it.host_call(_struct.calcsize, a[1])
+            return None
+
+        def meth(name, fn):
+            b = B('Struct.' + name, fn)
+            b.is_method = True
+            return b
+        scls.ns['__init__'] = meth('__init__', s_init)
+        scls.ns['unpack'] = meth('unpack', lambda it, a, kw: struct_unpack(
+            it, a[0].attrs['format'], a[1]))
+        scls.ns['unpack_from'] = meth(
+            'unpack_from', lambda it, a, kw: struct_unpack_from(
+                it, a[0].attrs['format'], a[1],
+                a[2] if len(a) > 2 else kw.get('offset', 0)))
+        scls.ns['pack'] = meth('pack', lambda it, a, kw: struct_pack(
+            it, a[0].attrs['format'], a[1:]))
+        m.ns['Struct'] = scls
         return m
 
     # ---------------- logging
@@ -449,6 +477,23 @@ def struct_unpack(it, fmt, buf):
         else:
             out.append(mk_int(v))
     return tuple(out)
+
+
+def struct_unpack_from(it, fmt, buf, offset=0):
+    """struct.unpack_from: the buffer may be longer than the format."""
+    size = _struct.calcsize(fmt)
+    if is_symbolic(offset):
+        raise Unsupported('unpack_from with a symbolic offset')
+    if isinstance(buf, (bytes, bytearray)):
+        return it.host_call(_struct.unpack_from, fmt, bytes(buf), offset)
+    if not isinstance(buf, SBytes):
+        it.throw(TypeError, "a bytes-like object is required")
+    n = buf.zlen()
+    if not it.truth(mk_bool(n - offset >= size)):
+        it.throw(_struct.error, 'unpack_from requires a buffer of at least '
+                 '%d bytes' % (size + offset))
+    return struct_unpack(it, fmt, ops.bytes_slice(
+        it, buf, slice(offset, offset + size)))
 
 
 def struct_pack(it, fmt, vals):
